@@ -147,6 +147,28 @@ func (c *Ctx) genSquareCase(maxChoices []int) sqCase {
 		btx, _, _ := tx.UnmarshalBlobTx(raw)
 		sc.txs = append(sc.txs, genTx{raw: raw, isBlob: true, inner: btx.Tx, blobs: specs, canon: canon})
 		d = append(d, "b["+strings.Join(bd, " ")+"]")
+		if canon == nil && c.rng.Chance(1, 12) {
+			// a DIFFERENT blob transaction with byte-identical inner (PFB) bytes: same blob sizes, other
+			// namespaces and data (anything keyed by the inner transaction confuses the two)
+			twin := make([]blobSpec, len(specs))
+			blobs := make([]*share.Blob, len(specs))
+			okTwin := true
+			for j := range specs {
+				twin[j] = c.randBlob(pool[c.rng.Intn(len(pool))], len(specs[j].data), specs[j].ver == 1)
+				bo, err := twin[j].blob()
+				if err != nil {
+					okTwin = false
+					break
+				}
+				blobs[j] = bo
+			}
+			if okTwin {
+				if raw2, err := tx.MarshalBlobTx(btx.Tx, blobs...); err == nil && !bytes.Equal(raw2, raw) {
+					sc.txs = append(sc.txs, genTx{raw: raw2, isBlob: true, inner: btx.Tx, blobs: twin})
+					d = append(d, "b[twin: same inner tx]")
+				}
+			}
+		}
 	}
 	if c.rng.Chance(1, 6) {
 		// boundary-directed: ordinary txs with lengths on the varint-width boundaries whose
@@ -194,10 +216,25 @@ func (c *Ctx) genSquareCase(maxChoices []int) sqCase {
 			d = append(d, fmt.Sprintf("t%d(duplicate)", len(src.raw)))
 		}
 	}
-	if c.rng.Chance(1, 50) && k > 0 && !sc.txs[0].isBlob {
-		sc.txs[0].raw = nil // empty ordinary tx: outside C02/C09's quantifier
-		if sc.class == "" {
-			sc.class = "empty-tx"
+	if c.rng.Chance(1, 25) && len(sc.txs) > 0 {
+		// an empty ordinary tx somewhere in the list (nil or empty non-nil): outside C02/C09's quantifier
+		var ord []int
+		for i, t := range sc.txs {
+			if !t.isBlob {
+				ord = append(ord, i)
+			}
+		}
+		if len(ord) > 0 {
+			i := ord[c.rng.Intn(len(ord))]
+			if c.rng.Bool() {
+				sc.txs[i].raw = nil
+			} else {
+				sc.txs[i].raw = []byte{}
+			}
+			d = append(d, fmt.Sprintf("(tx %d emptied)", i))
+			if sc.class == "" {
+				sc.class = "empty-tx"
+			}
 		}
 	}
 	sc.desc = fmt.Sprintf("max=%d thr=%d %s", sc.max, sc.thr, strings.Join(d, " "))
@@ -676,9 +713,32 @@ func streamBuilder(c *Ctx) {
 	c.manyBlobCases()
 	c.hugeTxCases()
 	c.hugeBlobCases()
+	c.manySequencesCase()
 	if c.thorough {
 		c.exhaustiveSmallScope()
 	}
+}
+
+// manySequencesCase: a 64 x 64 square holding more than a thousand sequences (36 blob transactions of 30
+// one-share blobs plus the padding between and after them). Go-side oracles only in the quick tier.
+func (c *Ctx) manySequencesCase() {
+	pool := c.userNamespaces(3)
+	sc := sqCase{max: 64, thr: c.rng.Pick([]int{1, 64})}
+	sc.txs = append(sc.txs, genTx{raw: c.normalTx(200)})
+	for t := 0; t < 36; t++ {
+		specs := make([]blobSpec, 30)
+		for j := range specs {
+			specs[j] = c.randBlob(pool[(t+j)%3], c.rng.Range(1, 400), (t+j)%5 == 0)
+		}
+		raw := c.makeBlobTx(specs, 20)
+		btx, _, _ := tx.UnmarshalBlobTx(raw)
+		sc.txs = append(sc.txs, genTx{raw: raw, isBlob: true, inner: btx.Tx, blobs: specs})
+	}
+	sc.desc = fmt.Sprintf("max=64 thr=%d t200 36 x b[30 one-share blobs]", sc.thr)
+	c.goOnly = !c.thorough
+	c.squareCase(sc)
+	c.goOnly = false
+	c.dist("many-sequences")
 }
 
 // hugeBlobCases: the largest configurations - maxSquareSize 256, one blob just below / just above 128*128
@@ -1028,6 +1088,28 @@ func streamBHist(c *Ctx) {
 				v, err := b.BlobShareLength(p, j)
 				c.emit(fmt.Sprintf("b bloblen %d %d", p, j), okOr(err, fmt.Sprintf("ok %d", v)))
 				desc += "L "
+				if err == nil && sc.class == "" {
+					// C13: the predicted share count of an accepted blob is what the encoder produces
+					var keptBlobTxs []genTx
+					nOrd := 0
+					for _, a := range accepted {
+						if a.isBlob {
+							keptBlobTxs = append(keptBlobTxs, a)
+						} else {
+							nOrd++
+						}
+					}
+					if q := p - nOrd; q >= 0 && q < len(keptBlobTxs) && j >= 0 && j < len(keptBlobTxs[q].blobs) {
+						if bo, berr := keptBlobTxs[q].blobs[j].blob(); berr == nil {
+							if sh, serr := bo.ToShares(); serr == nil {
+								c.oracle()
+								if v != len(sh) {
+									fail("C13", fmt.Sprintf("BlobShareLength(%d, %d) predicts %d shares for a %d-byte version-%d blob; the encoder produces %d", p, j, v, len(bo.Data()), bo.ShareVersion(), len(sh)))
+								}
+							}
+						}
+					}
+				}
 			default:
 				i := c.rng.Range(-1, b.NumTxs())
 				w, err := b.GetWrappedPFB(i)
@@ -1057,6 +1139,23 @@ func streamBHist(c *Ctx) {
 			if t.isBlob {
 				kind = "btx"
 				btx, _, _ := tx.UnmarshalBlobTx(t.raw)
+				if c.rng.Bool() {
+					// the in-memory route: the caller's own Blob objects (not re-decoded from bytes), e.g. with the
+					// exact signer slice they were created with
+					mem := &tx.BlobTx{Tx: btx.Tx}
+					okMem := true
+					for _, sp := range t.blobs {
+						bo, err := sp.blob()
+						if err != nil {
+							okMem = false
+							break
+						}
+						mem.Blobs = append(mem.Blobs, bo)
+					}
+					if okMem && len(mem.Blobs) == len(btx.Blobs) {
+						btx = mem
+					}
+				}
 				acc = b.AppendBlobTx(btx)
 			} else {
 				acc = b.AppendTx(t.raw)
